@@ -72,9 +72,13 @@ class ModbusAsciiFramer(ModbusFramer):
         end = self._buffer.find(self._end)
         if end != -1:
             self._header['len'] = end
-            self._header['uid'] = int(self._buffer[1:3], 16)
-            self._header['lrc'] = int(self._buffer[end - 2:end], 16)
-            data = a2b_hex(self._buffer[start + 1:end - 2])
+            try:
+                self._header['uid'] = int(self._buffer[1:3], 16)
+                self._header['lrc'] = int(self._buffer[end - 2:end], 16)
+                data = a2b_hex(self._buffer[start + 1:end - 2])
+            except ValueError:
+                # not hex digits (or an odd number of them): a bad frame
+                return False
             return checkLRC(data, self._header['lrc'])
         return False
 
@@ -169,9 +173,15 @@ class ModbusAsciiFramer(ModbusFramer):
             if self.checkFrame():
                 if self._validate_unit_id(unit, single):
                     frame = self.getFrame()
-                    result = self.decoder.decode(frame)
-                    if result is None:
-                        raise ModbusIOException("Unable to decode response")
+                    try:
+                        result = self.decoder.decode(frame)
+                        if result is None:
+                            raise ModbusIOException("Unable to decode response")
+                    except Exception:
+                        # whatever is wrong with this frame, it must not
+                        # block the frames that follow it
+                        self.advanceFrame()
+                        raise
                     self.populateResult(result)
                     self.advanceFrame()
                     callback(result)  # defer this
